@@ -116,9 +116,20 @@ impl Encoder {
 // ---- trusted shim: the Decoder (decode.rs) is opaque inside the engine unit; it is verified on its own in U-codec
 #[verifier::external_body]
 pub struct Decoder { scratch: Vec<u8> }
+//@struct gneiss-mqtt/src/decode.rs DecodingContext
 impl Decoder {
     #[verifier::external_body]
     pub fn reset_for_new_connection(&mut self) { unimplemented!() }
+    // Assumed contract of decode_bytes() inside the engine unit: packets are only appended to the output list and every decoded
+    // packet ends in the bytes handed in now (so at most one packet per byte); the context's settings are not touched.
+    #[verifier::external_body]
+    pub fn decode_bytes(&mut self, bytes: &[u8], context: &mut DecodingContext) -> (r: GneissResult<()>)
+        ensures old(context).decoded_packets@.is_prefix_of(final(context).decoded_packets@),
+            final(context).decoded_packets@.len() <= old(context).decoded_packets@.len() + bytes@.len(),
+            final(context).maximum_packet_size == old(context).maximum_packet_size, final(context).protocol_version == old(context).protocol_version,
+            // the output reference itself is not re-seated (decode.rs only pushes through it)
+            mut_ref_future(final(context).decoded_packets) == mut_ref_future(old(context).decoded_packets),
+    { unimplemented!() }
 }
 
 // ---- trusted shim for `RefCell<Box<dyn OutboundAliasResolver>>` (interior mutability + dyn trait: outside Verus).
